@@ -96,3 +96,13 @@ Theorem C07_accept_keyword_capacity : forall e a, kinds_ok e a = true ->
   has_kind VK a = true \/ forall k, kw_target e k = true -> kw_target a k = true.
 Proof. exact accept_keyword_capacity. Qed.
 Print Assumptions C07_accept_keyword_capacity.
+
+(* required keyword-only parameters: every required keyword-only parameter of the accepted
+   callable is a required keyword-only parameter, of the same name, of the expected
+   signature — so every call the expected signature binds passes it *)
+Theorem C07_accept_required_kwonly : forall e a,
+  valid_sig a = true -> kinds_ok e a = true ->
+  forall q, In q a -> pkind q = KO -> pdefault q = false ->
+  exists m, In m e /\ pkind m = KO /\ pname m = pname q /\ pdefault m = false.
+Proof. exact accept_required_kwonly. Qed.
+Print Assumptions C07_accept_required_kwonly.
